@@ -3,7 +3,7 @@
    are inert.  Addresses A000-BFFF and FF00-FF7F other than FF0F are outside this instance (scripts avoid them). *)
 From Coq Require Import FMapPositive.
 From V.lib Require Import Bits Mem.
-From V.model Require Import Uop Alu Cpu Ints.
+From V.model Require Import Uop Alu Cpu CpuTables Ints.
 
 Record sbus := mkSbus { sb_mem : Mem.t; sb_rom : N -> N; sb_ints : ints }.
 
@@ -39,7 +39,7 @@ Definition test_rom (a : N) : N :=
 Definition sb_init : sbus := mkSbus (Mem.empty 0) test_rom ints_init.
 
 Definition sb_cycle (sb : cpu * sbus) : cpu * sbus :=
-  cycle sbus sb_rd sb_wr sb_trig sb_corrupt sb_ime sb_set_ime sb_pending sb_ack sb.
+  cycle gen_tables sbus sb_rd sb_wr sb_trig sb_corrupt sb_ime sb_set_ime sb_pending sb_ack sb.
 
 Definition sb_at_boundary (s : cpu) : bool := is_finished s.
 
